@@ -34,6 +34,16 @@ class HypPhase:
         self.name, self.strategy, self.examples = name, strategy, examples
 
 
+class StatefulPhase:
+    """Hypothesis rule-based state machine: factory(ctx) -> machine class. The
+    machine keeps ctx.current_case = {'history': [...]} up to date so that a
+    failing history becomes the replay file."""
+    kind = 'stateful'
+
+    def __init__(self, name, factory, examples, steps):
+        self.name, self.factory, self.examples, self.steps = name, factory, examples, steps
+
+
 class EnumPhase:
     """Exhaustive enumeration: gen(shard, nshards) yields JSON-able cases."""
     kind = 'enumeration'
@@ -143,6 +153,20 @@ def run_shard(args):
                         ctx.harness_error = traceback.format_exc()
                         raise HarnessAbort()
                 for sig, (_, case, f) in seen.items():
+                    violations.append((ph.name, case, f, True))
+            elif ph.kind == 'stateful':
+                from hypothesis.stateful import run_state_machine_as_test
+                n = max(1, int(ph.examples * scale))
+                sd = (seed * 1000003 + shard * 1009 + pi * 17) % (2 ** 63)
+                machine = hypothesis.seed(sd)(ph.factory(ctx))
+                try:
+                    run_state_machine_as_test(machine, settings=settings(
+                        max_examples=n, stateful_step_count=ph.steps,
+                        deadline=None, database=None, derandomize=False,
+                        report_multiple_bugs=False, print_blob=False,
+                        suppress_health_check=list(HealthCheck)))
+                except Violation as v:
+                    case, f = ctx.last_violation
                     violations.append((ph.name, case, f, True))
             else:
                 n = max(1, int(ph.examples * scale))
